@@ -24,6 +24,7 @@ from cv.acc import Acc, h
 from cv import findings as findings_mod
 
 MAX_PAR = int(os.environ.get("CV_JOBS", "16"))
+STALL_S = int(os.environ.get("CV_STALL_S", "90"))
 
 
 def _run_shards(prop, descs, watchdog_s, crash_ok=False):
@@ -55,7 +56,19 @@ def _run_shards(prop, descs, watchdog_s, crash_ok=False):
             for i, p, of, t0, lf in procs:
                 rc = p.poll()
                 if rc is None:
-                    if time.time() - t0 > watchdog_s:
+                    stalled = False
+                    jp = of + ".journal"
+                    if crash_ok and os.path.exists(jp):
+                        try:
+                            stalled = time.time() - os.path.getmtime(jp) > STALL_S
+                        except OSError:
+                            stalled = False
+                    if stalled:
+                        # no progress on one case for STALL_S seconds: kill, record, resume
+                        p.kill()
+                        p.wait()
+                        rc = "stalled"
+                    elif time.time() - t0 > watchdog_s:
                         p.kill()
                         p.wait()
                         lf.close()
@@ -68,7 +81,8 @@ def _run_shards(prop, descs, watchdog_s, crash_ok=False):
                                 pass
                     else:
                         still.append((i, p, of, t0, lf))
-                    continue
+                    if rc != "stalled":
+                        continue
                 lf.close()
                 if os.path.exists(of):
                     with open(of) as f:
@@ -78,7 +92,10 @@ def _run_shards(prop, descs, watchdog_s, crash_ok=False):
                     try:
                         with open(lf.name) as f:
                             tail = f.read()
-                        tail = tail[:1500] + ("\n...\n" + tail[-500:] if len(tail) > 2000 else "")
+                        if rc == "stalled":
+                            tail = tail[-2500:]
+                        else:
+                            tail = tail[:1500] + ("\n...\n" + tail[-500:] if len(tail) > 2000 else "")
                     except Exception:
                         pass
                     jr = None
@@ -166,6 +183,41 @@ def main(argv):
     for c in crashes:
         # the interpreter was killed by native code while a public operation ran
         opname = str(c["journal"].get("about_to_run", "?"))
+        frame = ""
+        seen_thread = False
+        for line in c["log"].splitlines():
+            if line.startswith("Current thread"):
+                seen_thread = True
+            elif seen_thread and line.strip().startswith("File"):
+                frame = line.strip().split(" in ")[-1]
+                break
+        if c["rc"] == "stalled":
+            # last periodic stack dump tells where it was stuck
+            frame = ""
+            for blk in c["log"].split("Timeout (")[-1:]:
+                for line in blk.splitlines():
+                    if line.strip().startswith("File"):
+                        frame = line.strip().split(" in ")[-1]
+                        break
+            if frame in ("glp_simplex", "glp_intopt", "glp_exact", "glp_interior"):
+                acc.count("solver_algorithm_stalls_ignored")
+                acc.add("solver_algorithm_stall_frames", frame)
+                continue
+            acc.violation(
+                f"{prop}/stall/{opname}",
+                f"no progress for {STALL_S}s while running {opname} (stuck in {frame or 'unknown frame'})",
+                {"journal": c["journal"], "log": c["log"][-3000:], "desc": c["desc"]},
+            )
+            acc.count("stalls")
+            continue
+        if frame in ("glp_simplex", "glp_intopt", "glp_exact", "glp_interior"):
+            # GLPK's own algorithm aborted on the problem it was given (an assertion in
+            # its LU/simplex code).  The monitors compared that problem with the model
+            # right before; the abort is a solver defect, not an observation about the
+            # property.  Counted as evidence, the shard was resumed behind the case.
+            acc.count("solver_algorithm_aborts_ignored")
+            acc.add("solver_algorithm_abort_messages", next((l.strip()[:120] for l in c["log"].splitlines() if "Assertion" in l or "Error detected" in l), "?"))
+            continue
         first = ""
         for line in c["log"].splitlines():
             if line.strip() and not line.startswith(("Fatal", "Current", "  File", "Extension")):
